@@ -29,7 +29,7 @@ STD_TRAITS = ["HW_CPU_X86_AVX", "HW_CPU_X86_AVX2", "STORAGE_DISK_SSD",
 CUSTOM_CLASSES = ["CUSTOM_RC1", "CUSTOM_RC2", "CUSTOM_RC3", "CUSTOM_RC4"]
 CUSTOM_TRAITS = ["CUSTOM_T1", "CUSTOM_T2", "CUSTOM_T3", "CUSTOM_T4"]
 BOGUS_UPPER = ["NOSUCH", "NOSUCH_TOO"]
-PREFIX_POOL = ["CUSTOM_", "CUSTOM_T", "HW_", "HW_CPU_X86_AVX", "ZZZ"]
+PREFIX_POOL = ["CUSTOM_", "CUSTOM_T", "CUSTOM_T_", "HW_", "HW_CPU_X86_AVX", "ZZZ"]
 PROJECTS = ["proj1", "proj2", "proj3"]
 USERS = ["user1", "user2"]
 CTYPES = ["INSTANCE", "MIGRATION", "VOLUME"]
